@@ -14,7 +14,7 @@ import time
 from vlib import core
 
 _HB = os.path.join(core.HARNESS, "src", "bin")
-BINS = [b for b in ["h_chainview"] if os.path.exists(os.path.join(_HB, b + ".rs"))]
+BINS = [b for b in ["h_chainview", "h_restartview"] if os.path.exists(os.path.join(_HB, b + ".rs"))]
 LEVEL = "proof"
 MANIFEST = {
     "category": "proof",
@@ -23,6 +23,7 @@ MANIFEST = {
     "technique": "machine-checked proof in Coq (invariants over operation lists) + differential execution of real monitor clones under different chain deliveries + per-operation model correspondence",
 }
 KNOWN_WHAT = {
+    "F2-unlisted-alternative-funding-survives-confirm-reorg": "a confirmed, not yet locked splice transaction is in nobody's get_relevant_txids once the channel is closed, and the reorg branch of best_block_updated does not forget it: after a reorganisation delivered through Confirm the monitor still takes the splice for confirmed",
     "F1-locktimed-packages-survive-reorg": "time-locked claim packages created when a commitment confirmed survive its disconnection; aggregated ones are duplicated on re-confirmation (debug assertion / duplicate claim)",
 }
 COQ_IMPORTS = ["LdkV.Prim.U64", "LdkV.Gen.Consts", "LdkV.Model.ChainView"]
@@ -31,6 +32,9 @@ Open Scope Z_scope.
 Fixpoint scan (st : state) (ops : list op) : list (list (Z * Z * Z)) :=
   match ops with [] => [] | o :: t => let st' := step st o in relevant_txids st' :: scan st' t end.
 Definition B (id h : Z) : blk := mkBlk id h [].
+"""
+PRELUDE_F = """
+Open Scope Z_scope.
 """
 
 
@@ -59,8 +63,8 @@ def generate(ctx):
     return getattr(ctx, "gen_meta", [])
 
 
-def _run_parallel(ctx, first, count, procs, model, budget):
-    exe = ctx.bin_path("h_chainview")
+def _run_parallel(ctx, first, count, procs, model, budget, binary="h_chainview"):
+    exe = ctx.bin_path(binary)
     per = (count + procs - 1) // procs
     ps = []
     for i in range(procs):
@@ -84,6 +88,77 @@ def _run_parallel(ctx, first, count, procs, model, budget):
         seen = set(r.get("seed") for r in got)
         missing += [s for s in range(lo, lo + n) if s not in seen]
     return recs, missing
+
+
+def _start_parallel(ctx, first, count, procs, budget, binary):
+    """start only (collected later with _collect): lets the restart harness run beside the clone harness"""
+    exe = ctx.bin_path(binary)
+    per = (count + procs - 1) // procs
+    ps = []
+    for i in range(procs):
+        lo = first + i * per
+        n = min(per, first + count - lo)
+        if n <= 0:
+            break
+        cmd = "VERIF_DEADLINE_S=%d %s run %d %d 2>/dev/null | grep -a '^R '" % (budget, exe, lo, n)
+        ps.append((lo, n, subprocess.Popen(["timeout", "2400", "bash", "-c", cmd], cwd=ctx.tmp, stdout=subprocess.PIPE, universal_newlines=True, errors="replace")))
+    return ps
+
+
+def _collect(ps):
+    recs, missing = [], []
+    for lo, n, p in ps:
+        out, _ = p.communicate()
+        got = []
+        for l in out.split("\n"):
+            if l.startswith("R {"):
+                try:
+                    got.append(json.loads(l[2:]))
+                except ValueError:
+                    pass
+        recs += got
+        seen = set(r.get("seed") for r in got)
+        missing += [s for s in range(lo, lo + n) if s not in seen]
+    return recs, missing
+
+
+def filter_correspondence(ctx, recs, limit):
+    """the kept positions `verif_filter_block` reported for real calls (watched outpoints, inputs of the
+    transactions handed over) against `filter_positions` of Model/ChainView.v"""
+    import ast
+    cases = []
+    seen = set()
+    for r in recs:
+        for f in r.get("filters", []) or []:
+            if f not in seen:
+                seen.add(f)
+                cases.append((r["seed"], f))
+    cases.sort(key=lambda c: (-c[1].count(";"), c[1]))
+    # the richest first (most transactions per call), then a spread
+    cases = cases[:limit // 2] + cases[limit // 2::max(1, (len(cases) - limit // 2) // max(1, limit // 2))][:limit // 2]
+    if not cases:
+        return [], 0
+    exprs, exps = [], []
+    for seed, f in cases:
+        w, txs, got = f.split("|")
+        wl = "; ".join("(%s, %s)" % tuple(o.split(".")) for o in w.split(",") if o)
+        tl = []
+        for t in txs.split(";"):
+            me, ins = t.split(":")
+            tl.append("mkF %s [%s] []" % (me, "; ".join("(%s, %s)" % tuple(i.split(".")) for i in ins.split(",") if i)))
+        exprs.append("filter_positions [%s] [] 0 [%s]" % (wl, "; ".join(tl)))
+        exps.append([int(x) for x in got.split(",") if x])
+    vals = ctx.coq_eval("corr_filter", COQ_IMPORTS, exprs, prelude=PRELUDE_F, shards=min(core.NPROC, max(1, len(exprs) // 8)))
+    dis = []
+    for (seed, f), e, v in zip(cases, exps, vals):
+        try:
+            res = list(ast.literal_eval(v.replace(";", ",")))
+        except (ValueError, SyntaxError):
+            dis.append({"seed": seed, "error": "unparsable model output", "value": v[:200]})
+            continue
+        if res != e:
+            dis.append({"seed": seed, "case": f[:300], "model_kept": res, "impl_kept": e})
+    return dis, len(cases)
 
 
 def _parse_trace(t):
@@ -120,6 +195,8 @@ def _parse_trace(t):
             ops.append("TU %s" % op[1:])
         elif k == "A":
             ops.append("AU %s 9" % op[1:])
+        elif k == "L":
+            ops.append("RL")
     return "scan (mkSt %d %d [] [] []) [%s]" % (h0, h0, "; ".join(ops)), exp
 
 
@@ -189,7 +266,7 @@ def run(ctx):
         "Coq 8.16.1 kernel + vm_compute",
         "tools/rs2v (Gen/CltvChecks.v confirmation_threshold, Gen/Consts.v), regenerated every run",
         "Model/ChainView.v (hand transliteration of the monitor's chain bookkeeping; per-transaction classification supplied as data), tied by per-operation trace correspondence on get_relevant_txids with real monitor clones",
-        "harness crate /verif/harness (h_chainview), LDK functional_test_utils, hooks chain::verif_hooks_package::monitor_event_summary",
+        "harness crate /verif/harness (h_chainview, h_restartview), LDK functional_test_utils incl. splicing_tests helpers and reload_node!, hooks chain::verif_hooks_package::monitor_event_summary, ChannelMonitor::{verif_awaiting_entries, verif_onchain_failed_outbound_htlcs, verif_alternative_funding_confirmed, verif_filter_block}",
     ]
     ctx.assumptions += ["the chain source honours the Listen/Confirm contracts (blocks of one chain; a fork is disconnected / its transactions unconfirmed before the chain continues)",
                         "reorganisations deeper than ANTI_REORG_DELAY - 1 blocks are out of scope (irreversible by design)"]
@@ -197,7 +274,12 @@ def run(ctx):
     rng = ctx.rng.fork("c11-chainview")
     count = 260 if ctx.tier == "quick" else 8000
     first = 1 + rng.below(10 ** 9)
-    recs, missing = _run_parallel(ctx, first, count, min(core.NPROC, 14), True, 50 if ctx.tier == "quick" else 600)
+    # the restart harness (cheap scenarios) runs beside the clone harness
+    rcount = 600 if ctx.tier == "quick" else 12000
+    rfirst = 1 + rng.below(10 ** 9)
+    rps = _start_parallel(ctx, rfirst, rcount, 2, 45 if ctx.tier == "quick" else 500, "h_restartview")
+    recs, missing = _run_parallel(ctx, first, count, max(1, min(core.NPROC, 14) - 2), True, 50 if ctx.tier == "quick" else 600)
+    rrecs, rmissing = _collect(rps)
     ctx.coverage["chainview_skipped_for_time"] = sum(1 for r in recs if r.get("skipped"))
     recs = [r for r in recs if not r.get("skipped")]
     ctx.timed("chainview_s", time.time() - t0)
@@ -205,7 +287,8 @@ def run(ctx):
     for s in missing[:3]:
         fails.append({"seed": s, "why": "scenario produced no verdict (harness crashed or timed out)", "detail": ""})
     known_hit = {}
-    tot = {"blocks": 0, "clones": 0, "detours": 0, "late": 0}
+    tot = {"blocks": 0, "clones": 0, "detours": 0, "late": 0, "sameblock": 0, "nonfirst": 0, "boundary_keep": 0, "boundary_go": 0,
+           "kept_checks": 0, "kept_skipped": 0, "reloads": 0, "splice": 0}
     for r in recs:
         for k in tot:
             tot[k] += r.get(k, 0) or 0
@@ -217,7 +300,23 @@ def run(ctx):
         ctx.violation("chain delivery scenario: " + KNOWN_WHAT.get(key, key),
                       {"broken": "trace judge", "scenario": {"seed": r.get("seed"), "detail": r.get("detail")},
                        "replay_cmd": "%s replay %d" % (ctx.bin_path("h_chainview"), r.get("seed"))}, True, key=key)
+    # ---- restart harness
+    ctx.coverage["restart_skipped_for_time"] = sum(1 for r in rrecs if r.get("skipped"))
+    rrecs = [r for r in rrecs if not r.get("skipped")]
+    rfails = [r for r in rrecs if not r.get("ok")]
+    for s_ in rmissing[:3]:
+        rfails.append({"seed": s_, "why": "scenario produced no verdict (harness crashed or timed out)", "detail": ""})
+    depths = {}
+    for r in rrecs:
+        if r.get("ok"):
+            depths[str(r.get("restart_depth"))] = depths.get(str(r.get("restart_depth")), 0) + 1
+    ctx.coverage["restart_scenarios"] = len(rrecs)
+    ctx.coverage["restart_first_seed"] = rfirst
+    ctx.coverage["restart_by_confirmations_at_restart"] = depths
+    ctx.coverage["restart_with_reorg"] = sum(1 for r in rrecs if r.get("reorg"))
+    ctx.coverage["restart_conclusions_compared"] = sum(r.get("conclusions", 0) or 0 for r in rrecs)
     dis = []
+    fdis, nfilter = [], 0
     ncases = nobs = 0
     if okm and proved:
         def go():
@@ -225,11 +324,13 @@ def run(ctx):
         try:
             try:
                 dis, ncases, nobs = go()
+                fdis, nfilter = filter_correspondence(ctx, recs, 120 if ctx.tier == "quick" else 1200)
             except RuntimeError as ex:
                 if "Cannot find library" in str(ex) or "inconsistent assumptions" in str(ex):
                     generate(ctx)
                     ctx.coq_make(["Model/ChainView.vo", "Gen/CltvChecks.vo"])
                     dis, ncases, nobs = go()
+                    fdis, nfilter = filter_correspondence(ctx, recs, 120 if ctx.tier == "quick" else 1200)
                 else:
                     raise
         except RuntimeError as ex:
@@ -238,8 +339,8 @@ def run(ctx):
     ctx.coverage["chainview_aborted_on_known_finding"] = sum(1 for r in recs if r.get("aborted"))
     ctx.coverage["chainview_totals"] = tot
     ctx.coverage["chainview_first_seed"] = first
-    ctx.coverage["model_traces"] = {"clone_traces": ncases, "operations_compared": nobs}
-    ctx.coverage["evaluations"] = tot["clones"] + nobs
+    ctx.coverage["model_traces"] = {"clone_traces": ncases, "operations_compared": nobs, "filter_calls_compared": nfilter}
+    ctx.coverage["evaluations"] = tot["clones"] + nobs + nfilter + 2 * len(rrecs)
     ctx.coverage["distinct_nontrivial"] = tot["clones"]
     ctx.coverage["rule"] = "one clone of a real monitor per (scenario, node, delivery style); all are non-trivial (each processes a closing transaction and its claims); model: one observation per monitor operation"
     ctx.coverage["translated_items"] = getattr(ctx, "gen_meta", [])
@@ -253,6 +354,11 @@ def run(ctx):
         ctx.violation("chain delivery scenario violates C11: " + f.get("why", ""),
                       {"broken": "trace judge", "scenario": {k: f.get(k) for k in ("seed", "why", "detail", "cfg")},
                        "replay_cmd": "%s replay %s" % (ctx.bin_path("h_chainview"), f.get("seed"))}, True)
+    for f in rfails[:3]:
+        ctx.violation("restart scenario violates C11: " + f.get("why", ""),
+                      {"broken": "trace judge", "scenario": {"harness": "h_restartview", "seed": f.get("seed"), "why": f.get("why"), "detail": f.get("detail")},
+                       "replay_cmd": "%s replay %s" % (ctx.bin_path("h_restartview"), f.get("seed"))}, True)
+    fails = fails + rfails
     broken = []
     if not proved:
         broken.append({"obligation": "Coq proof of Props/C11.v", "detail": getattr(ctx, "proof_failure", {"where": gen_err})})
@@ -260,21 +366,41 @@ def run(ctx):
     ctx.obligations.append(("coverage:late-monitor-updates-exercised", not vacuous_late, "%d clones were given monitor updates after the closing transaction confirmed" % tot["late"]))
     if vacuous_late:
         broken.append({"obligation": "late monitor updates exercised", "detail": "no clone was given a monitor update after the closing transaction confirmed: the late-update judges were vacuous"})
+    judged = len(recs) - sum(1 for r in recs if r.get("aborted"))
+    guards = [
+        ("coverage:same-block-children-with-parent-input-not-first", tot["nonfirst"] > 0, "%d children confirmed in their parent's block, %d with the parent-spending input not first" % (tot["sameblock"], tot["nonfirst"])),
+        ("coverage:fork-points-at-confirmation-blocks", tot["boundary_keep"] > 0 and tot["boundary_go"] > 0 and tot["kept_checks"] > 0,
+         "%d detours with the fork point at a transaction's own block, %d one below; %d comparisons 'back at a block = as when first there' (%d skipped: something could mature)" % (tot["boundary_keep"], tot["boundary_go"], tot["kept_checks"], tot["kept_skipped"])),
+        ("coverage:pending-splice-scenarios", tot["splice"] > 0, "%d scenarios with a confirmed, never locked splice" % tot["splice"]),
+        ("coverage:monitor-restarts", tot["reloads"] > 0, "%d monitor restarts inside clone runs" % tot["reloads"]),
+    ]
+    for name, okg, detail in guards:
+        okg = okg or judged < 120
+        ctx.obligations.append((name, okg, detail))
+        if not okg:
+            broken.append({"obligation": name, "detail": "not exercised: the judges that depend on it were vacuous (" + detail + ")"})
+    rdepth_ok = len(rrecs) < 100 or all(depths.get(str(d), 0) > 0 for d in range(0, 8))
+    ctx.obligations.append(("coverage:restart-at-every-depth", rdepth_ok, "restarts by confirmations of the closing transaction at the restart: %s" % json.dumps(depths, sort_keys=True)))
+    if not rdepth_ok:
+        broken.append({"obligation": "restart at every depth 0..ANTI_REORG_DELAY+1", "detail": json.dumps(depths, sort_keys=True)})
+    if fdis:
+        broken.append({"correspondence": "verif_filter_block vs filter_positions of Model/ChainView.v", "first_disagreements": fdis[:5], "n": len(fdis)})
     if stamp is not None:
         broken.append({"obligation": "anchored extraction of the height stamp of late-update entries", "detail": stamp})
     if dis:
         broken.append({"correspondence": "h_chainview get_relevant_txids vs Model/ChainView.v", "first_disagreements": dis[:5], "n": len(dis)})
     if broken and not fails:
         ctx.violation("C11 no longer shown: " + ("proof" if not proved else "anchored extraction" if stamp is not None and not dis else "correspondence") + " broken",
-                      {"broken": broken, "search": "judges on %d real monitor clones (equal views across deliveries, burial, shallow-fork retraction) found no failing input" % tot["clones"]}, False)
+                      {"broken": broken, "search": "judges on %d real monitor clones (equal views across deliveries, burial, shallow-fork retraction) and %d restart scenarios found no failing input" % (tot["clones"], len(rrecs))}, False)
     ctx.write_evidence(LEVEL)
 
 
 def replay(ctx, rep):
     print(json.dumps(rep, indent=1)[:6000])
     sc = rep.get("scenario") or {}
-    if sc.get("seed") is not None and os.path.exists(ctx.bin_path("h_chainview")):
-        cmd = "%s replay %d 2>/dev/null | grep -a '^R ' | cut -c1-3000" % (ctx.bin_path("h_chainview"), sc["seed"])
+    hb = sc.get("harness") or "h_chainview"
+    if sc.get("seed") is not None and os.path.exists(ctx.bin_path(hb)):
+        cmd = "%s replay %d 2>/dev/null | grep -a '^R ' | cut -c1-3000" % (ctx.bin_path(hb), sc["seed"])
         p = subprocess.run(["bash", "-c", cmd], stdout=subprocess.PIPE, universal_newlines=True, errors="replace")
         print(p.stdout)
         return 0 if '"ok":true' in p.stdout else 1
